@@ -873,8 +873,9 @@ func (ls *LanceroSource) distributeData(buffersMsg BuffersChanType) *dataBlock {
 	// Then we record the "rowcounts", where rowcount = nrow*framecount+row
 	// external trigger search must occur before Mix, since mix alters FB in place
 	externalTriggerRowcounts := make([]int64, 0)
-	nrows := ls.devices[0].nrows
-	ncols := ls.devices[0].ncols
+	// The geometry is that of the card being read (the first active one), which need not be card number 0.
+	nrows := ls.active[0].nrows
+	ncols := ls.active[0].ncols
 	for frame := 0; frame < framesUsed; frame++ { // frame within this block, need to add ls.nextFrameNum for consistent timing across blocks
 		for row := 0; row < nrows; row++ { // search the first column for frame bit level triggers
 			// datacopies is still in readout order (r0c0, r0c1, ..., r1c0, ...), with error and feedback alternating
